@@ -123,7 +123,7 @@ func (uf *UserFile) Write(w io.Writer) error {
 
 // Parse parses an /etc/passwd line into a UserEntry.
 func (ue *UserEntry) Parse(line string) error {
-	line = strings.TrimSpace(line)
+	line = strings.TrimRight(line, "\r\n")
 
 	parts := strings.Split(line, ":")
 	if len(parts) != 7 {
